@@ -1,3 +1,4 @@
+import AM.Gen.Consts
 import AM.Model.Tracker
 /-! Model of the audit processor (`processors/auditd/auditd.go`, `reassembler_callback.go`) around
 the session tracker: `parseAuditLogs` (empty lines skipped, a rejected line stops the parser with an
@@ -138,7 +139,7 @@ inductive In where
   deriving Repr
 
 structure Cfg where
-  max   : Nat := 1000
+  max   : Nat := AM.Gen.maxEventsInFlight   -- regenerated from `auditd.go`
   after : Time := 0
 
 /-- `PushMessage`: `Put`, `CleanUp`, callbacks in eviction order -/
